@@ -33,7 +33,21 @@ theorem keeps_applyFixups (fps : List (Path × List Nat)) :
     have h1 := keeps_removeNamespacesAt fp.1 fp.2 t h
     exact (ih _ h1.ok).trans h1
 
-/-- `deduplicate_namespaces` (any node, whatever the traversal decided to remove) is an edit that
+theorem keeps_dedupLoop (path : Path) : ∀ (fuel : Nat) (t : Tree),
+    t.allNodes (nodeOK env) = true → Keeps env (dedupLoop env path fuel t) t
+  | 0, t, h => Keeps.refl h
+  | fuel + 1, t, h => by
+    unfold dedupLoop
+    split
+    · exact Keeps.refl h
+    · rename_i sub _
+      dsimp only
+      have h1 : Keeps env (dedupPass env t path sub).1 t := keeps_applyFixups _ t h
+      split
+      · exact (keeps_dedupLoop path fuel _ h1.ok).trans h1
+      · exact h1
+
+/-- `deduplicate_namespaces` (any node, whatever the traversals decided to remove) is an edit that
     stays in the C01 domain. -/
 theorem keeps_deduplicateNamespaces (t t' : Tree) (path : Path) (hok : t.allNodes (nodeOK env) = true)
     (h : deduplicateNamespaces env t path = some t') : Keeps env t' t := by
@@ -42,7 +56,7 @@ theorem keeps_deduplicateNamespaces (t t' : Tree) (path : Path) (hok : t.allNode
   · cases h
   · simp only [Option.some.injEq] at h
     subst h
-    exact keeps_applyFixups _ t hok
+    exact keeps_dedupLoop path _ t hok
 
 theorem representable_deduplicateNamespaces (t t' : Tree) (path : Path) (hr : Representable env t = true)
     (h : deduplicateNamespaces env t path = some t') : Representable env t' = true := by
